@@ -33,8 +33,9 @@ class ObjSeq(Model):
         key = idx.get_id()
         if key not in self.cache:
             self.cache[key] = self.make_elem(it, idx)
-            self.cache[key].seq_index = idx
-            self.cache[key].seq_of = self
+            if not isinstance(self.cache[key], tuple):  # (elements that are tuples carry the index in their members)
+                self.cache[key].seq_index = idx
+                self.cache[key].seq_of = self
         return self.cache[key]
 
     def truthy(self, it):
